@@ -317,8 +317,23 @@ def o4(tier):
     return r
 
 
+def o5(tier):
+    from props import memobs
+    return memobs.messages_listing(tier, 'O5', 'O5')
+
+
+def o6(tier):
+    from props import memobs
+    return memobs.invalidation(tier, 'O6', 'O6')
+
+
+def o7(tier):
+    from props import memobs
+    return memobs.memory_rollback(tier, 'O7', 'O7')
+
+
 def run(tier, seed, only=None):
-    obs = [('O1', o1), ('O2', o2), ('O3', o3), ('O4', o4)]
+    obs = [('O1', o1), ('O2', o2), ('O3', o3), ('O4', o4), ('O5', o5), ('O6', o6), ('O7', o7)]
     out = []
     for k, f in obs:
         if only and k not in only:
